@@ -145,7 +145,9 @@ func (conn *tcpConn) OnPacket(fn func(*protocol.Packet, error)) {
 		conn.packetCh = make(chan *protocol.Packet, conn.dopts.ReadQueueSize)
 
 		go func() {
-			defer close(conn.packetCh)
+			// packetCh and writeCh are never closed: the reader and callers of
+			// Write may still be sending on them when the conn is closed (a
+			// send on a closed channel panics); everyone watches closeCh
 
 			for {
 				verifhook.Point("disp.loop")
@@ -183,7 +185,6 @@ func (conn *tcpConn) Close(err error) {
 	conn.closeOnce.Do(func() {
 		conn.logger.Errorf("close conn, err: %v", err)
 		close(conn.closeCh)
-		close(conn.writeCh)
 
 		_ = conn.conn.Close()
 
@@ -279,6 +280,7 @@ func (conn *tcpConn) writing() {
 	buf := ringbuffer.New(4096)
 
 	t := time.NewTicker(time.Microsecond * 500)
+	defer t.Stop()
 
 	for {
 		if conn.closed() {
